@@ -9,7 +9,12 @@ import Apko.Model.Retry
   trace  = `<open>;<events separated by blanks>`: open = E | P<code> | I<code>;
            events = q- | q<p> | b<o|e|w|f> | r<hex>:<o|e|x> | c
 answers `impl-trace \t pass|fail:<why> \t class` — the Impl model's trace for the same case, and the
-Spec checker evaluated on the trace of the real code.
+Spec checker evaluated on the trace of the real code (with the script: the k-th request is answered by
+the k-th connection, and the `eof_complete` clause is waived only while the current connection has a
+clean early end the reader cannot see).
+
+`retry.selftest \t data(hex) \t trace` and `retry.selftest \t kind \t data(hex) \t script \t trace`
+answer the checker's verdict on a hand-written trace (without / with a script).
 -/
 namespace Apko.Driver.Retry
 open Apko Apko.Retry
